@@ -43,7 +43,9 @@ theorem schema_tie_flat :
     schemaCode heartbeat.fields = C19.tbtc_HeartbeatProposal ∧
     schemaCode movedFundsSweep.fields = C19.tbtc_MovedFundsSweepProposal ∧
     schemaCode signature.fields = C19.tecdsa_Signature ∧
-    schemaCode signingDone.fields = C19.tbtc_SigningDoneMessage := by decide
+    schemaCode signingDone.fields = C19.tbtc_SigningDoneMessage ∧
+    schemaCode redemptionSpec.fields = C19.tbtc_RedemptionProposal ∧
+    schemaCode movingFundsSpec.fields = C19.tbtc_MovingFundsProposal := by decide
 
 /-- field numbers / kinds the hand-composed decoders select (kinds: 6 message, 1x repeated,
     2x map<uint32,·>), against the generated descriptors. -/
@@ -60,8 +62,6 @@ theorem schema_tie_composed :
     C19.tbtc_CoordinationProposal = [1, 0, 2, 2] ∧
     C19.tbtc_DepositSweepProposal = [1, 16, 2, 2, 3, 11] ∧
     C19.tbtc_DepositSweepProposal_DepositKey = [1, 2, 2, 0] ∧
-    C19.tbtc_RedemptionProposal = [1, 12, 2, 2] ∧
-    C19.tbtc_MovingFundsProposal = [1, 12, 2, 2] ∧
     C19.tbtc_Signer = [1, 6, 2, 0, 3, 2] ∧
     C19.tbtc_Wallet = [1, 2, 2, 13] ∧
     C19.dkg_PreParams = [1, 6, 2, 6] ∧
@@ -74,19 +74,27 @@ theorem schema_tie_composed :
     C19.tecdsa_LocalPartySaveData_LocalPreParams = [1, 6, 2, 2, 3, 2, 4, 2, 5, 2, 6, 2, 7, 2, 8, 2] ∧
     C19.tecdsa_LocalPartySaveData_LocalPreParams_PrivateKey = [1, 2, 2, 2, 3, 2] ∧
     C19.tecdsa_LocalPartySaveData_LocalSecrets = [1, 2, 2, 2] ∧
-    C19.tecdsa_LocalPartySaveData_ECPoint = [1, 2, 2, 2] := by decide
+    C19.tecdsa_LocalPartySaveData_ECPoint = [1, 2, 2, 2] ∧
+    C19.gjkr_EphemeralPublicKey = [1, 0, 2, 22, 3, 3] ∧
+    C19.dkg_EphemeralPublicKeyMessage = [1, 0, 2, 22, 3, 3] ∧
+    C19.signing_EphemeralPublicKeyMessage = [1, 0, 2, 22, 3, 3] ∧
+    C19.gjkr_MemberCommitments = [1, 0, 2, 12, 3, 3] ∧
+    C19.gjkr_MemberPublicKeySharePoints = [1, 0, 2, 12, 3, 3] ∧
+    C19.registry_ThresholdSigner = [1, 0, 2, 2, 3, 3, 4, 22, 5, 13] ∧
+    C19.registry_Membership = [1, 2, 2, 3] ∧
+    C19.net_Identity = [1, 2] := by decide
 
 /-- every flat spec of the model is an admissible schema (hypothesis of `unmarshal_marshal`) -/
 theorem flat_specs_schemaOk :
     SchemaOk simple3.fields ∧ SchemaOk finalization.fields ∧ SchemaOk announcement.fields ∧
     SchemaOk hashSig.fields ∧ SchemaOk act1.fields ∧ SchemaOk act2.fields ∧ SchemaOk act3.fields ∧
     SchemaOk heartbeat.fields ∧ SchemaOk movedFundsSweep.fields ∧ SchemaOk signature.fields ∧
-    SchemaOk signingDone.fields := by
-  refine ⟨?_, ?_, ?_, ?_, ?_, ?_, ?_, ?_, ?_, ?_, ?_⟩ <;>
+    SchemaOk signingDone.fields ∧ SchemaOk redemptionSpec.fields ∧ SchemaOk movingFundsSpec.fields := by
+  refine ⟨?_, ?_, ?_, ?_, ?_, ?_, ?_, ?_, ?_, ?_, ?_, ?_, ?_⟩ <;>
     (constructor
      · decide
      · intro s hs; simp [simple3, finalization, announcement, hashSig, act1, act2, act3, heartbeat,
-         movedFundsSweep, signature, signingDone] at hs; rcases hs with h | h | h | h | h <;>
+         movedFundsSweep, signature, signingDone, redemptionSpec, movingFundsSpec] at hs; rcases hs with h | h | h | h | h <;>
          (try subst h) <;> simp_all)
 
 /-! ## per-type instances -/
@@ -146,6 +154,40 @@ theorem act2_ok_valid (bs out : Bytes) (h : act2.unmarshal bs = some out) :
   obtain ⟨⟨h8, h32⟩, rfl⟩ := h3
   exact ⟨_, _, _, h8, h32, h4⟩
 
+/-- moving-funds proposal (repeated 20-byte wallet hashes + fee as a big integer): round trip
+    for every list of 20-byte hashes and every fee without leading zero bytes. -/
+theorem movingFunds_roundtrip (ws : List Bytes) (fee : Bytes) (hw : ∀ w ∈ ws, w.length = 20)
+    (hf : fee.length < 2 ^ 64) (hz : stripZeros fee = fee) :
+    movingFundsSpec.unmarshal (movingFundsSpec.marshal [.l ws, .b fee]) =
+      some (movingFundsSpec.marshal [.l ws, .b fee]) := by
+  apply unmarshal_marshal _ _ flat_specs_schemaOk.2.2.2.2.2.2.2.2.2.2.2.2
+  · refine ⟨?_, hf, trivial⟩
+    intro b hb
+    show b.length < 2 ^ 64
+    rw [hw b hb]; decide
+  · have : ws.all (fun w => w.length == 20) = true := by
+      simp only [List.all_eq_true]; intro w hw'; simp [hw w hw']
+    simp [movingFundsSpec, hz]
+    exact hw
+
+/-- … and only 20-byte wallet hashes are accepted -/
+theorem movingFunds_ok_valid (bs out : Bytes) (h : movingFundsSpec.unmarshal bs = some out) :
+    ∃ ws fee, (∀ w ∈ ws, w.length = 20) ∧ out = movingFundsSpec.marshal [.l ws, .b fee] := by
+  obtain ⟨fs, vs, vs', _, _, h3, h4⟩ := unmarshal_ok_post movingFundsSpec bs out h
+  rcases vs with _ | ⟨a, _ | ⟨b, _ | ⟨c, t⟩⟩⟩ <;> try (simp [movingFundsSpec] at h3)
+  cases a <;> cases b <;> simp [movingFundsSpec] at h3
+  obtain ⟨hall, rfl⟩ := h3
+  exact ⟨_, _, hall, h4⟩
+
+/-- redemption proposal: every list of scripts round-trips (no validation beyond the wire) -/
+theorem redemption_roundtrip (scripts : List Bytes) (fee : Bytes)
+    (hs : ∀ b ∈ scripts, b.length < 2 ^ 64) (hf : fee.length < 2 ^ 64) (hz : stripZeros fee = fee) :
+    redemptionSpec.unmarshal (redemptionSpec.marshal [.l scripts, .b fee]) =
+      some (redemptionSpec.marshal [.l scripts, .b fee]) := by
+  apply unmarshal_marshal _ _ flat_specs_schemaOk.2.2.2.2.2.2.2.2.2.2.2.1
+  · exact ⟨hs, hf, trivial⟩
+  · simp [redemptionSpec, hz]
+
 /-! ## defects of the unrepaired tree (F6) and the repaired behaviour -/
 
 /-- **counterexample**: on the empty byte string the original `signer.Unmarshal` dereferences the
@@ -155,10 +197,11 @@ theorem signerOrig_counterexample : signerOrig [] = .panic := by decide
 /-- the repaired decoder returns an error on the same input -/
 theorem signer_empty_err : signer [] = none := by decide
 
-/-- **partial statement that did hold**: wherever the original decoder did not panic, the repaired
-    one behaves identically — the fix only turns panics into errors. -/
+/-- **partial statement that did hold**: whatever the repaired decoder accepts, the original
+    accepted with the same value, and wherever the original returned an error or panicked the
+    repaired one returns an error — the fixes only turn panics and truncations into errors. -/
 theorem signerOrig_partial (bs : Bytes) :
-    (∀ out, signerOrig bs = .ok out → signer bs = some out) ∧
+    (∀ out, signer bs = some out → signerOrig bs = .ok out) ∧
     (signerOrig bs = .err → signer bs = none) ∧
     (signerOrig bs = .panic → signer bs = none) := by
   unfold signerOrig signer
@@ -176,9 +219,27 @@ theorem signerOrig_partial (bs : Bytes) :
           | none => simp [h1, h2, h3, guard']
           | some pks =>
             by_cases h4 : uncompressedOk (lastLen w 1) = true
-            · simp [h1, h2, h3, h4, guard']
+            · by_cases h5 : idxOk (lastVarint fs 2 % 4294967296) = true
+              · have h6 : lastVarint fs 2 % 4294967296 % 256 = lastVarint fs 2 % 4294967296 :=
+                  Nat.mod_eq_of_lt (by simp [idxOk] at h5; omega)
+                simp [h1, h2, h3, h4, h5, h6, guard']
+              · simp [h1, h2, h3, h4, h5, guard']
             · simp [h1, h2, h3, h4, guard']
         · simp [h1, h2, guard']
+
+/-- **counterexample** (`ThresholdSigner`, storage record): member index 256 was decoded as 0
+    (`uint8` truncation) — an accepted value that does not round-trip (replay:
+    `registry.ThresholdSigner 088002…`); the repaired decoder rejects it whatever the library
+    parsers say about the rest. -/
+theorem thresholdSignerOrig_counterexample : thresholdSignerOrigIndex [8, 128, 2] = some 0 := by decide
+
+theorem thresholdSigner_fixed_rejects (cvH cvD : Bytes → Option Bytes) :
+    thresholdSigner cvH cvD [8, 128, 2] = none := by
+  have hp : parseMsg [8, 128, 2] = some [(1, WVal.varint 256)] := by decide
+  have hm : mapBytes [(1, WVal.varint 256)] 4 = some [] := by decide
+  have hs : (strOk [(1, WVal.varint 256)] 3 && strOk [(1, WVal.varint 256)] 5) = true := by decide
+  have hi : idxOk (lastVarint [(1, WVal.varint 256)] 1 % 4294967296) = false := by decide
+  simp [thresholdSigner, hp, hm, hs, hi, guard']
 
 /-- the repaired `signer.Unmarshal` never yields the third outcome: it is a total function into
     error-or-value (statement of totality for the fixed model; the model type has no panic). -/
@@ -195,27 +256,37 @@ theorem accusationsOrig_counterexample :
 
 /-- the repaired decoder rejects it -/
 theorem accusations_fixed_rejects :
-    mapMsg false 2 3 (fun v => decide (v ≠ [])) privNorm [8, 5, 18, 4, 8, 3, 18, 0, 26, 1, 115] = none := by
+    mapMsg false 2 3 privCv [8, 5, 18, 4, 8, 3, 18, 0, 26, 1, 115] = none := by
   decide
 
 /-! ## monitor tie -/
 
 def toObs : Option Bytes → Obs
-  | some out => .ok out
+  | some out => .ok out true
   | none => .err
 
-/-- the monitor accepts every output of the model, for every modelled type and every input:
-    correspondence (impl = model on the sampled inputs) + this theorem ⇒ the property on the
-    implementation's observed behaviour. -/
-theorem holds_model (ty : String) (bs : Bytes) (r : Option Bytes)
-    (h : unmarshal ty bs = some r) : holds ty bs (toObs r) = true := by
-  cases r with
-  | none => simp [toObs, holds, h]
-  | some out => simp [toObs, holds, h]
+/-- the monitor accepts every output of the model, for every type, oracle and input — on the
+    round-trip stream under the hypothesis the stream claims (the model reproduces the input,
+    which `unmarshal_marshal` proves for the flat specs). Correspondence (impl = model on the
+    sampled inputs) + this theorem ⇒ the property on the implementation's observed behaviour. -/
+theorem holds_model (o : Oracle) (ty : String) (wf : Bool) (bs : Bytes) (r : Option Bytes)
+    (h : unmarshal o ty bs = some r) (hwf : wf = true → r = some bs) :
+    holds o ty wf bs (toObs r) = true := by
+  cases wf with
+  | false => cases r <;> simp [toObs, holds, propHolds, specHolds, h]
+  | true =>
+    have := hwf rfl
+    subst this
+    simp [toObs, holds, propHolds, specHolds, h]
 
-/-- the monitor rejects panics, hangs and unstable values whatever the type -/
-theorem holds_rejects_other (ty : String) (bs : Bytes) (s : String) :
-    holds ty bs (.other s) = false := rfl
+/-- the model-independent clause rejects panics, hangs, non-idempotent values, and a rejected or
+    altered round trip, whatever the type -/
+theorem propHolds_rejects (bs out : Bytes) (s : String) (wf : Bool) :
+    propHolds wf bs (.other s) = false ∧ propHolds wf bs (.ok out false) = false ∧
+    propHolds true bs .err = false ∧ (out ≠ bs → propHolds true bs (.ok out true) = false) := by
+  refine ⟨rfl, by simp [propHolds], rfl, ?_⟩
+  intro hne
+  simp [propHolds, hne]
 
 /-! ## non-vacuity -/
 
@@ -230,8 +301,12 @@ example : simple3.unmarshal [8, 7, 18, 5, 1] = none := by decide
 example : simple3.unmarshal [12] = none := by decide
 example : simple3.unmarshal [26, 1, 255] = none := by decide
 -- the monitor rejects an accepted value that dropped a field, and a rejected canonical encoding
-example : holds "entry.SignatureShare" [8, 7, 26, 1, 115] (.ok [8, 7]) = false := by decide
-example : holds "entry.SignatureShare" [8, 7, 26, 1, 115] .err = false := by decide
-example : holds "entry.SignatureShare" [8, 7, 26, 1, 115] (.ok [8, 7, 26, 1, 115]) = true := by decide
+example : holds [] "entry.SignatureShare" false [8, 7, 26, 1, 115] (.ok [8, 7] true) = false := by decide
+example : holds [] "entry.SignatureShare" false [8, 7, 26, 1, 115] .err = false := by decide
+example : holds [] "entry.SignatureShare" true [8, 7, 26, 1, 115] (.ok [8, 7, 26, 1, 115] true) = true := by decide
+-- library parsing is a parameter: the same bytes with an accepting / rejecting / missing oracle
+example : unmarshal [(105, [1, 2], some [1, 2])] "libp2p.Identity" [10, 2, 1, 2] = some (some [10, 2, 1, 2]) := by decide
+example : unmarshal [(105, [1, 2], none)] "libp2p.Identity" [10, 2, 1, 2] = some none := by decide
+example : unmarshal [] "libp2p.Identity" [10, 2, 1, 2] = none := by decide
 
 end KeepVerif.C19
